@@ -67,6 +67,15 @@ LOOP_BODY_OK = {'next', 'into_iter', 'iter', 'as_str', 'as_bytes', 'from_bytes',
 LOOP_BODY_INSERTS = re.compile(r'(HeaderMap|HashMap|HashSet|BTreeMap|BTreeSet|Headers)(::<[^>]*>)?::(append|insert|entry)$')
 
 
+HASH_CONTAINER_T = re.compile(r'std::collections::hash::(set::HashSet|map::HashMap)<')
+# operations on a hash container (or on a guard / reference to it) whose result does not depend on iteration order
+HASH_POINT_OPS = {'insert', 'remove', 'contains', 'contains_key', 'get', 'get_mut', 'get_key_value', 'len', 'is_empty', 'entry', 'clear', 'take', 'replace',
+                  'reserve', 'shrink_to_fit', 'deref', 'deref_mut', 'clone', 'clone_from', 'default', 'drop', 'eq', 'ne', 'borrow', 'borrow_mut', 'as_ref',
+                  'as_mut', 'unwrap', 'expect', 'lock', 'read', 'write', 'fmt'}
+HASH_WRAPPER_OK = ('std::sync::poison::mutex::Mutex::new', 'std::sync::poison::rwlock::RwLock::new', 'std::sync::lazy_lock::LazyLock::new',
+                   'alloc::sync::Arc::new', 'core::cell::RefCell::new', 'std::sync::once_lock::OnceLock::')
+
+
 def is_source_call(t, wrappers):
     if call_matches(t, SOURCE_CALLS):
         return True
@@ -353,6 +362,20 @@ def check(ctx, rep):
                                 site=key + '@' + cfg)
                     else:
                         rep.ok('R11.a', key + '@' + cfg, '; '.join(sorted(set(v[1] for v in verdicts))))
+                # R11.a (containers): a hash-ordered container is only ever used through point operations or through one of the
+                # iteration entry points classified above; handing it to anything else lets its order leak unseen (e.g. an
+                # Option<HashSet<_>> consumed by Iterator::flatten)
+                for bb, t in f.calls():
+                    cn = norm(t.get('callee') or '')
+                    if cn.startswith('std::collections::hash::') or is_source_call(t, wrappers) or last_seg(cn) in HASH_POINT_OPS or \
+                            any(cn.startswith(w) for w in HASH_WRAPPER_OK):
+                        continue
+                    hashed = [a.get('t') for a in (t.get('args') or []) if HASH_CONTAINER_T.search(a.get('t') or '')]
+                    if hashed:
+                        rep.bad('R11.a', '%s|%s|hash-container-escapes' % (f.kpath, last_seg(cn)),
+                                'hash-ordered container (%s) handed to %s at %s: its iteration order (random per process) can reach an '
+                                'order-sensitive consumer without passing any of the analysed iteration calls' % (hashed[0][:80], cn, f.where(bb)),
+                                site='%s|%s@%s' % (f.kpath, last_seg(cn), cfg))
                 # R11.b
                 hits = list(ambient_hits(f))
                 for bb, what in hits:
